@@ -20,7 +20,7 @@ func c17(tier string) []*explore.Scenario {
 		bound = 2
 	}
 	out = append(out, c17Spoof())
-	for _, role := range []string{"none", "stuck-writer", "failing-reader", "failing-writer", "failing-both", "dial-error", "slow-dial"} {
+	for _, role := range []string{"none", "stuck-writer", "stuck-writer-flood", "failing-reader", "failing-writer", "failing-both", "dial-error", "slow-dial"} {
 		out = append(out, c17BadPeer(role, bound))
 	}
 	for _, when := range []string{"before-old-fails", "after-old-fails"} {
@@ -113,7 +113,7 @@ func c17BadPeer(role string, bound int) *explore.Scenario {
 			pc := env.NewPipe(t.Tap, env.PipeOpts{Name: "c", Cap: 0})
 			release := make(chan struct{})
 			switch role {
-			case "stuck-writer":
+			case "stuck-writer", "stuck-writer-flood":
 				t.Extra["c"] = pc // nobody ever reads c: writes to it block for good
 			case "failing-reader":
 				t.Extra["c"] = pc
@@ -138,6 +138,17 @@ func c17BadPeer(role string, bound int) *explore.Scenario {
 				if role != "none" {
 					peers["a"].A.Inject(c17Msg(10, "a", "c"))
 					peers["a"].A.Inject(c17Msg(11, "a", "c"))
+				}
+				if role == "stuck-writer-flood" {
+					// more than the proxy buffers for one destination, ends of calls included
+					for i := 0; i < 22; i++ {
+						m := c17Msg(uint64(100+i), "a", "c")
+						if i%4 == 3 {
+							m.Trailer = &goatorepo.Trailer{}
+							m.Status = &goatorepo.ResponseStatus{}
+						}
+						peers["a"].A.Inject(m)
+					}
 				}
 				peers["a"].A.Inject(c17Msg(20, "a", "b"))
 				peers["a"].A.Inject(c17Msg(21, "a", "b"))
